@@ -26,6 +26,7 @@ structure DState where
   datePre : Bytes := []
   r : RState := ⟨[], 0⟩
   sp : SpecState := ⟨[], none⟩
+  ctx : Ctx := mkCtx (fun _ => 0) []
   ready : Bool := false
 
 def d2 (n : Nat) : Bytes := [48 + (n / 10) % 10, 48 + n % 10]
@@ -233,6 +234,7 @@ def doReset (ins impl : List String) : Option (DState × String) := do
     let fs := ds.map (fun d => fileOfBA (buildBA d))
     let s : DState := { P := P, fs := fs, ds := ds, base := ← base.toInt?, datePre := datePre,
                         r := rInit n, sp := specInit n, ready := true }
+    let s := { s with ctx := mkCtx (tsOfD s) ds }
     let out := "\t".intercalate ("ok" :: fs.map (fun f => toString f.size))
     let agree := out == "\t".intercalate impl
     -- the hypotheses of the theorems about the parameters, reported (not a verdict)
@@ -245,14 +247,13 @@ def doOp (s : DState) (name : String) (ins impl : List String) : Option (DState 
   let op ← parseOp s.fs.length name ins
   let (r', res) := runModel s op
   let out := res ++ "\t" ++ dump r'
-  let tsOf := tsOfD s
   match impl with
   | "PANIC" :: _ =>
-    let why := if s.ds.all readable then some "C20.panic" else none
+    let why := if s.ctx.allReadable then some "C20.panic" else none
     pure ({ s with r := r', sp := specInit s.fs.length }, verdict false why out)
   | _ =>
     let o ← parseObs op impl
-    let (bad, sp') := specStep tsOf s.ds s.sp op o
+    let (bad, sp') := specStep s.ctx s.sp op o
     let agree := out == "\t".intercalate impl
     pure ({ s with r := r', sp := sp' }, verdict agree bad out)
 
